@@ -26,6 +26,10 @@ pub struct RunCfg {
     pub conformance: Option<J>,
     /// also print the per-run trace hashes' combined digest (determinism self-test)
     pub quiet: bool,
+    /// write a compact summary of this run (used for the small-window sub-run)
+    pub summary_out: Option<String>,
+    /// embed a previously written summary into the evidence
+    pub include_summary: Option<String>,
 }
 
 #[derive(Clone, Debug)]
@@ -311,6 +315,7 @@ pub fn write_replay(verif_dir: &str, prop: &str, seed: u64, index: u64, case: &J
         ("case", case.clone()),
         ("violation", v.to_json()),
         ("signature", json::s(&v.class)),
+        ("window", json::u(crate::model::WINDOW)),
     ];
     if let Some(u) = unminimised {
         pairs.push(("unminimised_case", u.clone()));
@@ -426,6 +431,14 @@ pub fn run_check(prop: &dyn Prop, cfg: &RunCfg) -> i32 {
         if let Some(c) = &cfg.conformance {
             cov.push(("conformance", c.clone()));
         }
+        cov.push(("receive_window_bytes", json::u(crate::model::WINDOW)));
+        if let Some(f) = &cfg.include_summary {
+            if let Ok(t) = std::fs::read_to_string(f) {
+                if let Ok(j) = json::parse(&t) {
+                    cov.push(("small_window_build", j));
+                }
+            }
+        }
         let ev = json::obj(vec![
             ("property_id", json::s(pid)),
             ("tier", json::s(if cfg.tier == Tier::Quick { "quick" } else { "thorough" })),
@@ -449,6 +462,20 @@ pub fn run_check(prop: &dyn Prop, cfg: &RunCfg) -> i32 {
             eprintln!("HARNESS-ERROR: cannot write evidence: {}", e);
             return 2;
         }
+    }
+    if let Some(f) = &cfg.summary_out {
+        let j = json::obj(vec![
+            ("receive_window_bytes", json::u(crate::model::WINDOW)),
+            ("evaluations", J::Int(sum.evaluations as i128)),
+            ("nontrivial_runs", J::Int(sum.nontrivial as i128)),
+            ("distinct_nontrivial", J::Int(sum.distinct_nontrivial as i128)),
+            ("violations", J::Int(viol_count as i128)),
+            ("probe_counts", fmap(&sum.stats.probes)),
+            ("fault_counts", fmap(&sum.stats.faults)),
+            ("wall_s", J::Float((sum.wall_s * 1000.0).round() / 1000.0)),
+            ("note", json::s("same check, same seeds, crate built with --cfg micro_http_verif=\"small\" (64-byte receive window, hook H3); the reference model is parameterised by the window")),
+        ]);
+        let _ = std::fs::write(f, j.to_string());
     }
     if !cfg.quiet {
         println!(
